@@ -10,6 +10,9 @@ import traceback
 
 HERE = os.path.dirname(os.path.abspath(__file__))
 VERIF = os.path.dirname(HERE)
+# development aid (seedtest --scratch): evidence and replay files of a run against a scratch tree
+# must not overwrite those of runs against /repo
+OUT = os.environ.get("VERIF_OUT", VERIF)
 sys.path.insert(0, HERE)
 
 import scenarios as S  # noqa: E402
@@ -231,7 +234,7 @@ def finish(prop_id, tier, seed, level, results, t0, rule, assumptions, feature_f
     drifts = 0
     known_hit = {}
     known_what = {}
-    replay_dir = replay_dir or os.path.join(VERIF, "replays", prop_id)
+    replay_dir = replay_dir or os.path.join(OUT, "replays", prop_id)
     printed = set()
     for r in results:
         for mm in r["mismatches"]:
@@ -288,8 +291,8 @@ def finish(prop_id, tier, seed, level, results, t0, rule, assumptions, feature_f
     ev = {"property_id": prop_id, "tier": tier, "seed": seed, "level": level,
           "coverage": coverage, "assumptions": assumptions,
           "wall_s": round(time.time() - t0, 2), "violations": violations}
-    os.makedirs(os.path.join(VERIF, "evidence"), exist_ok=True)
-    with open(os.path.join(VERIF, "evidence", prop_id + ".json"), "w") as f:
+    os.makedirs(os.path.join(OUT, "evidence"), exist_ok=True)
+    with open(os.path.join(OUT, "evidence", prop_id + ".json"), "w") as f:
         json.dump(ev, f, indent=1)
     if errors:
         for e in errors[:3]:
